@@ -110,7 +110,10 @@ def _calc_crowding_distance(population: list[FrozenTrial]) -> defaultdict[int, f
 
 def _crowding_distance_sort(population: list[FrozenTrial]) -> None:
     manhattan_distances = _calc_crowding_distance(population)
-    population.sort(key=lambda x: manhattan_distances[x.number])
+    # Ties (typically several boundary individuals with an infinite distance) are broken by the
+    # trial number. Relying on the incoming order would make the result depend on the direction of
+    # the last objective, because `_calc_crowding_distance` leaves the list sorted by its raw values.
+    population.sort(key=lambda x: (manhattan_distances[x.number], x.number))
     population.reverse()
 
 
